@@ -1,12 +1,151 @@
-/- C18 — UTF-16 text access.  (first layer) -/
+/- C18 — UTF-16 text access decodes like lossy UTF-16 and iterates consistently.
+
+   Everything is stated for arbitrary `u : List Nat`; only `C18_wf` needs the units to be
+   genuine 16-bit values (`∀ x ∈ u, x < 65536`), because `Text.WF.lens` compares the
+   segment length with `utf16Len` of the scalar and a "unit" `≥ 0x10000` would be a
+   one-unit character with `utf16Len = 2` (see the tests at the end).
+
+   Proof idea: an index `i` is `good` when it does not lie between a high surrogate and
+   a low one.  `Spec.lossy` splits over a cut at every good index (`lossy_slice_split`),
+   `charAt` at a good index returns the first lossy character and lands on a good index
+   (`charAt_good`), and answers `none` at every index that is not good (`charAt_not_good`);
+   the double-ended iterator keeps both of its ends good. -/
 import UBidi.Model.Utf16
 import UBidi.Spec.Reorder
+import UBidi.Lemmas.C18Iter
 namespace UBidi.Props.C18
-open UBidi
+open UBidi UBidi.Lemmas.C18
 
 theorem charAt_out_of_range (u : List Nat) (i : Nat) (h : u.length ≤ i) : Utf16.charAt u i = none := by
   unfold Utf16.charAt
   have : u[i]? = none := by simp [h]
   simp [this]
+
+/-- the forward iterators (`char_indices`, `indices_lengths`, `chars`) decode lossily -/
+theorem C18_segments (u : List Nat) :
+    (Utf16.segments u).map (fun s => (s.cp, s.len)) = Spec.lossy u := by
+  rw [segments_eq, map_lay]
+
+/-- the characters tile `[0, len)` -/
+theorem C18_tiles (u : List Nat) : SegsFrom 0 (Utf16.segments u) u.length := by
+  rw [segments_eq]
+  have := segsFrom_lay_lossy 0 u
+  rwa [Nat.zero_add] at this
+
+/-- `&[u16]` texts are well formed (for genuine 16-bit units; see the header) -/
+theorem C18_wf (u : List Nat) (h16 : ∀ x ∈ u, x < 65536) : (Utf16.toText u).WF := by
+  constructor
+  · exact C18_tiles u
+  · intro s hs
+    have hs' : s ∈ lay 0 (Spec.lossy u) := by rw [← segments_eq]; exact hs
+    exact lossy_lens u h16 _ (mem_lay hs')
+
+/-- the lengths of the decoded characters add up to the number of units -/
+theorem C18_len_sum (u : List Nat) : ((Spec.lossy u).map (·.2)).foldl (· + ·) 0 = u.length := by
+  rw [lossy_len_sum, Nat.zero_add]
+
+/-- random access: the segmentation's character when the index starts one, nothing otherwise
+    (including inside a pair and past the end) -/
+theorem C18_char_at (u : List Nat) (i : Nat) :
+    Utf16.charAt u i =
+      ((Utf16.segments u).find? (fun s => s.start == i)).map (fun s => (s.cp, s.len)) := by
+  cases hf : (Utf16.segments u).find? (fun s => s.start == i) with
+  | some s =>
+    have hm : s ∈ Utf16.segments u := List.mem_of_find?_eq_some hf
+    have hp := List.find?_some hf
+    have hsi : s.start = i := by simpa using hp
+    have := mem_iterFrom u _ _ s hm
+    rw [hsi] at this
+    rw [this]; rfl
+  | none =>
+    simp only [Option.map_none]
+    cases hc : Utf16.charAt u i with
+    | none => rfl
+    | some q =>
+      exfalso
+      obtain ⟨hi, hg⟩ := charAt_some_good u hc
+      obtain ⟨s, hm, h1, h2⟩ := segsFrom_cover _ 0 u.length i (C18_tiles u) (Nat.zero_le _) hi
+      have hs := mem_iterFrom u _ _ s hm
+      have hne : s.start ≠ i := by
+        intro he
+        have := List.find?_eq_none.mp hf s hm
+        simp [he] at this
+      have := charAt_skips u hs i (by omega) h2
+      rw [this] at hg; cases hg
+
+/-! ### the double-ended iterator -/
+
+/-- outputs of a sequence of steps on the Model iterator: `true` = next, `false` = next_back -/
+def iterRun (u : List Nat) : Utf16.Iter → List Bool → List (Option Nat)
+  | _, [] => []
+  | it, op :: ops =>
+    let r := if op then Utf16.Iter.next u it else Utf16.Iter.nextBack u it
+    r.1 :: iterRun u r.2 ops
+
+/-- the same steps on a plain double-ended queue of characters -/
+def dequeRun : List Nat → List Bool → List (Option Nat)
+  | _, [] => []
+  | cs, true :: ops => match cs with
+      | [] => none :: dequeRun [] ops
+      | c :: rest => some c :: dequeRun rest ops
+  | cs, false :: ops => match cs.getLast? with
+      | none => none :: dequeRun [] ops
+      | some c => some c :: dequeRun cs.dropLast ops
+
+theorem iterRun_eq (u : List Nat) (ops : List Bool) : ∀ it, Inv u it →
+    iterRun u it ops = dequeRun (deque u it) ops := by
+  induction ops with
+  | nil => intro it _; simp [iterRun, dequeRun]
+  | cons op ops ih =>
+    intro it hinv
+    cases op with
+    | true =>
+      obtain ⟨hinv', hstep⟩ := next_spec u it hinv
+      simp only [iterRun, if_true]
+      rw [ih _ hinv']
+      rcases hstep with ⟨hd, hn, hd'⟩ | ⟨c, hn, hd⟩
+      · rw [hd, hn, hd']; simp [dequeRun]
+      · rw [hd, hn]; simp [dequeRun]
+    | false =>
+      obtain ⟨hinv', hstep⟩ := nextBack_spec u it hinv
+      simp only [iterRun, Bool.false_eq_true, if_false]
+      rw [ih _ hinv']
+      rcases hstep with ⟨hd, hn, hd'⟩ | ⟨c, hn, hd⟩
+      · rw [hd, hn, hd']; simp [dequeRun]
+      · rw [hd, hn]; simp [dequeRun]
+
+/-- Whatever the interleaving of steps from the front and from the back, every character of
+    the lossy decoding is yielded exactly once, in order, and `none` forever once exhausted. -/
+theorem C18_double_ended (u : List Nat) (ops : List Bool) :
+    iterRun u (Utf16.Iter.new u) ops = dequeRun ((Spec.lossy u).map (·.1)) ops := by
+  rw [iterRun_eq u ops _ (inv_new u), deque_new]
+
+/-! ### tests (non-vacuity; `decide` on literals is a test, not a proof) -/
+
+/-- test input: BMP, a pair, lone high, lone low, low-then-high at the end -/
+def sample : List Nat := [0x41, 0xD801, 0xDC01, 0x20, 0xD800, 0x20, 0xDFFF, 0x20, 0xDC00, 0xD800]
+
+-- test: the decoding of the sample has a pair, replacements and plain units
+example : Spec.lossy sample =
+    [(0x41, 1), (0x10401, 2), (0x20, 1), (0xFFFD, 1), (0x20, 1), (0xFFFD, 1), (0x20, 1),
+     (0xFFFD, 1), (0xFFFD, 1)] := by decide
+-- test: the Model's segments of the sample
+example : (Utf16.segments sample).map (fun s => (s.start, s.cp, s.len)) =
+    [(0, 0x41, 1), (1, 0x10401, 2), (3, 0x20, 1), (4, 0xFFFD, 1), (5, 0x20, 1), (6, 0xFFFD, 1),
+     (7, 0x20, 1), (8, 0xFFFD, 1), (9, 0xFFFD, 1)] := by decide
+-- test: the hypothesis of `C18_wf` holds on the sample
+example : ∀ x ∈ sample, x < 65536 := by decide
+-- test: without it `lens` fails — a "unit" 0x10000 is a 1-unit character whose `utf16Len` is 2
+example : (Utf16.segments [0x10000]).map (fun s => (s.len, utf16Len s.cp)) = [(1, 2)] := by decide
+-- test: random access inside the pair and past the end answers `none`, at a start the character
+example : Utf16.charAt sample 2 = none ∧ Utf16.charAt sample 10 = none ∧
+    Utf16.charAt sample 1 = some (0x10401, 2) := by decide
+-- test: `[hi, hi, lo]` — index 1 starts the pair, index 2 is inside it
+example : (List.range 4).map (Utf16.charAt [0xD800, 0xD800, 0xDC00]) =
+    [some (0xFFFD, 1), some (0x10000, 2), none, none] := by decide
+-- test: an interleaving on the sample meets in the middle and then stays `none`
+example : iterRun sample (Utf16.Iter.new sample) [true, false, true, false, false, true, true, false, true, true, false] =
+    [some 0x41, some 0xFFFD, some 0x10401, some 0xFFFD, some 0x20, some 0x20, some 0xFFFD, some 0xFFFD,
+     some 0x20, none, none] := by decide
 
 end UBidi.Props.C18
